@@ -508,7 +508,8 @@ def _screen_worker(rng_):
             continue
         name, args = g.labels[g.lab[i]]
         screen_transition(objs, R, C, g.states[g.pre[i]], name, args, g.vi(i), g.expected(i), col)
-        if name in CHAR_OPS:
+        # fill_region has by far the most argument tuples (corners x corners): every third of its transitions
+        if name in CHAR_OPS and (name != 'FillRegion' or (g.vi(i) // 7) % 3 == 0):
             screen_rejected(objs, R, C, g.states[g.pre[i]], name, args, g.vi(i) // 11, col)
     return col
 
@@ -883,7 +884,7 @@ def random_screen_script(rng, R, C, enc, nops, errors='replace'):
             script.append(('op', 'FillRegion', [coord(R), coord(C), coord(R), coord(C)], char()))
     for _ in range(nops):
         x = rng.random()
-        if rejecting and rng.random() < 0.08:
+        if rejecting and rng.random() < 0.06:
             script += rejected_steps(rng, R, C, enc, coord)
             continue
         if x < 0.18:
